@@ -252,6 +252,10 @@ def search_calls(rng):
                "output_type": {"t": "const", "v": rng.choice(["triplets", "triplets", "coo_matrix", "ndarray"])},
                "seqs2": seq([S(rng.choice(pool)) for _ in range(rng.randint(1, 4))], "list") if two else NONE,
                "progress": {"t": "const", "v": False}}
+        if rng.random() < 0.15:
+            rec["seqs2"] = {"t": "alias", "of": "seqs"}
+        if rng.random() < 0.2:
+            rec["seqs"] = seq(rec["seqs"]["items"], "Series", rng.sample(range(3, 3 + n), n))
         yield rec
 
 
